@@ -94,6 +94,9 @@ package poll
 // a listener's stream lives as long as the listener stays connected: the server that carries the streams has no
 // read, write or idle deadline (a write deadline would cut every stream after that time while the registry still
 // hands messages to it)
+// the poll handler is the server's handler itself: listener paths reach it as sent (a ServeMux in between cleans paths
+// and redirects, so that a listener id with an empty or dot segment is registered under another id: C18, C20)
+//@ ensures [C18 C19 C20] result1 == nil ==> isptrto(result0.server.server.Handler, "PollHandler")
 //@ ensures result1 == nil ==> result0.server.server != nil && result0.server.server.WriteTimeout == 0 && result0.server.server.ReadTimeout == 0 && result0.server.server.IdleTimeout == 0
 
 // Starting the server only serves: no field of the server (deadlines, handler, listener) is assigned here (frame).
